@@ -114,6 +114,9 @@ def build_pool(np):
     class Neither:
         pass
 
+    class MySet(set):
+        pass
+
     P = namedtuple("P", "x y")
     pool = {
         "dict": lambda: {"a": 1}, "list": lambda: [1, 2], "tuple": lambda: (1, 2), "str": lambda: "s", "int": lambda: 3,
@@ -124,6 +127,11 @@ def build_pool(np):
         "row2": lambda: Row({"k": 2 + 3j}), "seqmap": lambda: SeqMap([5]), "neither": lambda: Neither(), "named": lambda: P(1, 2),
         "range": lambda: range(2), "dotdict": lambda: {"a.b": 1}, "badleaf": lambda: [1, Neither()],
         "dictofrow": lambda: {"r": Row({"z": 1})}, "listofuser": lambda: [UserDict({"q": 1}), UserList([2])],
+        "myset": lambda: MySet({1}),
+        # classes created on the fly (every call makes a NEW class, which becomes garbage afterwards):
+        # a later class may reuse the address - and id() - of a dead one
+        "tmp_dict": lambda: type("TmpD", (dict,), {})({"a": 1}), "tmp_list": lambda: type("TmpL", (list,), {})([1]),
+        "tmp_set": lambda: type("TmpS", (set,), {})({1}), "tmp_obj": lambda: type("TmpO", (), {})(),
     }
     if np is not None:
         pool.update({
@@ -182,6 +190,10 @@ def main():
         outcome(lambda: fresh(J.JSONDict).update({"u": v}))
         outcome(lambda: fresh(J.JSONList).reset(v))
         outcome(lambda: fresh(J.JSONDict).reset(v))
+        if name.startswith("tmp_"):
+            del v
+            import gc
+            gc.collect()      # the class is dead now; its address is free for the next one
 
     def probes(name):
         out = {}
